@@ -77,3 +77,80 @@ def run(ctx, name, cases, parts=('errors', 'defs', 'refs', 'ast', 'imports'), sh
             parts_bad = re.findall(r'"([^"]*)"', inner[j]) if j < len(inner) else ['?']
             mism.append((s + b, parts_bad, obs[s + b]))
     return mism, obs
+
+
+# ---------------------------------------------------------------------------------------------------------------- K-parse
+PARSE_PRE = '''From Coq Require Import List String Ascii Bool Arith.
+From PDV Require Import Lib.StrUtil Idl.GrammarDefs Idl.Cst Idl.Lexer Idl.ParserG Gen.Grammar.
+Import ListNotations. Open Scope string_scope. Open Scope list_scope.
+Fixpoint bad_idx (i : nat) (cs : list (string * string)) : list nat :=
+  match cs with
+  | [] => []
+  | c :: t => if String.eqb (show_ocst (parse_text lexer_rules parser_rules start_rule (fst c))) (snd c) then bad_idx (S i) t else i :: bad_idx (S i) t
+  end.
+'''
+
+
+def show_cst(n):
+    """mirror of ParserG.show_cst"""
+    if 't' in n:
+        return 't%s %d %d %d %d:%s;' % (n['t'], n['l'], n['c'], 1 if n['err'] else 0, len(n['x']), n['x'])
+    s = '-' if n['s'] is None else '%d %d' % tuple(n['s'])
+    e = '-' if n['e'] is None else '%d %d %d' % tuple(n['e'])
+    return 'r%s %s %s[%s]' % (n['r'], s, e, ''.join(show_cst(k) for k in n['c']))
+
+
+def parse_corr(ctx, name, cases, obs, per_shard=12, max_chars=4000, max_texts=400, shard_timeout=240):
+    """K-parse: the generic lexer + parser of Idl/Lexer.v, Idl/ParserG.v on the grammar translated from Idl.g4 (Gen/Grammar.v) vs the parse
+    tree ANTLR's generated IdlLexer/IdlParser deliver for the same text: equal trees (rule nodes with start/stop tokens, every token with type,
+    text, line, column) for texts ANTLR accepts, rejection for texts on which ANTLR reports a lexical or syntactic error."""
+    from concurrent.futures import ThreadPoolExecutor
+    seen, rows = set(), []
+    dist = {'texts': 0, 'accepted_by_antlr': 0, 'with_syntax_errors': 0, 'skipped_non_ascii_or_cr': 0, 'skipped_too_long_or_over_quota': 0, 'max_chars': 0,
+            'model_search_not_finished': 0}
+    for c, o in zip(cases, obs):
+        for rel, d in (o.get('cst') or {}).items():
+            if not isinstance(d, dict) or 'tree' not in d:
+                continue
+            text = c['files'].get(rel)
+            if text is None or text in seen:
+                continue
+            seen.add(text)
+            if any(ord(ch) > 126 or ch == '\r' for ch in text):
+                dist['skipped_non_ascii_or_cr'] += 1; continue      # Coq strings are byte strings, ANTLR counts code points
+            if len(text) > max_chars or len(rows) >= max_texts:
+                dist['skipped_too_long_or_over_quota'] += 1; continue
+            okp = not d['syntax']
+            dist['texts'] += 1; dist['accepted_by_antlr'] += okp; dist['with_syntax_errors'] += (not okp); dist['max_chars'] = max(dist['max_chars'], len(text))
+            rows.append(('(%s, %s)' % (cstr(text), cstr(show_cst(d['tree']) if okp else 'REJECTED')), {'text': text, 'antlr_syntax_errors': d['syntax'][:3]}))
+    def run_rows(tag, rr):
+        body = PARSE_PRE + 'Definition cases : list (string * string) := %s.\nEval vm_compute in (bad_idx 0 cases).\n' % clist([r for r, _ in rr])
+        return coqtool.run_cases('kparse_%s_%s' % (name, tag), body, timeout=shard_timeout)
+    def shard(s):
+        return s, run_rows(str(s), rows[s:s + per_shard])
+    with ThreadPoolExecutor(max_workers=14) as ex:
+        results = list(ex.map(shard, range(0, len(rows), per_shard)))
+    mism = []
+    for s, (rc, out, err) in results:
+        bad = coqtool.parse_nat_list(out) if rc == 0 else None
+        if bad is None and rc in (124, 137):
+            # the exhaustive search of the model did not finish on some text of this shard: evaluate the texts one by one, count the slow ones
+            for k_ in range(s, min(len(rows), s + per_shard)):
+                rc1, out1, err1 = run_rows('%d_%d' % (s, k_), rows[k_:k_ + 1])
+                b1 = coqtool.parse_nat_list(out1) if rc1 == 0 else None
+                if b1 is None:
+                    dist['model_search_not_finished'] += 1
+                elif b1:
+                    mism.append(rows[k_][1])
+            continue
+        if bad is None:
+            ctx.broken.append({'kind': 'correspondence', 'name': 'K-parse/%s (coqc failed)' % name, 'detail': (err + out)[:600] + ' ... ' + (err + out)[-600:]})
+            return
+        mism += [rows[s + i][1] for i in bad]
+    if dist['model_search_not_finished'] > max(2, len(rows) // 10):
+        ctx.broken.append({'kind': 'correspondence', 'name': 'K-parse/%s (model too slow)' % name, 'detail': json.dumps(dist)})
+        return
+    ctx.add_corr('K-parse', len(rows), dist['accepted_by_antlr'], mism, [rows[0][1]] if rows else [], dist,
+                 'every distinct IDL text of the cases above: parse tree of the generic lexer/parser model on the grammar translated from Idl.g4 on this run '
+                 'vs the tree of the generated ANTLR parser the implementation uses (all rule nodes with start/stop tokens, all tokens with type, text, line, '
+                 'column); texts with lexical or syntactic errors must be rejected by both; non-trivial = accepted texts')
